@@ -82,7 +82,7 @@ theorem hedge_done (pos n : Nat) (co : List Cond) (inner : Layer) (hi : DoneLaye
   | succ f ih =>
     intro k d b r res r' h
     simp only [hedgeLoop] at h
-    generalize (if (k == 0) = true then { r with hedgeAttempt := false } else ({ r with attempts := r.attempts + 1, hedges := r.hedges + 1, hedgeAttempt := true }).emit "hp.onHedge" pos) = r0 at h
+    generalize (if (k == 0) = true then { r with hedgeAttempt := false, hpLast := r.last } else ({ r with attempts := r.attempts + 1, hedges := r.hedges + 1, hedgeAttempt := true, last := r.hpLast }).emit "hp.onHedge" pos) = r0 at h
     cases hin : inner r0 with
     | none =>
       simp only [hin] at h
@@ -105,7 +105,15 @@ theorem applyPolicy_done (fuel pos : Nat) (p : Policy) (inner : Layer) (hi : Don
     DoneLayer (applyPolicy fuel pos p inner) := by
   cases p with
   | retry m rl h a => exact retry_done pos m rl h a inner hi fuel
-  | hedge n co => exact hedge_done pos n co inner hi _ _ _ _
+  | hedge n co =>
+    intro r res r' hh
+    simp only [applyPolicy] at hh
+    cases hl : hedgeLoop pos n co inner (n + 2) 0 0 0 r with
+    | none => simp [hl] at hh
+    | some x =>
+      simp only [hl, Option.map_some, Option.some.injEq, Prod.mk.injEq] at hh
+      obtain ⟨rfl, _⟩ := hh
+      exact hedge_done pos n co inner hi _ _ _ _ r x.1 x.2 hl
   | breaker id h =>
     intro r res r' hh
     simp only [applyPolicy] at hh
@@ -417,7 +425,7 @@ theorem hedge_congr (pos n : Nat) (co : List Cond) (inner inner' : Layer) (h : L
   | succ f ih =>
     intro k d b r
     simp only [hedgeLoop]
-    generalize (if (k == 0) = true then { r with hedgeAttempt := false } else ({ r with attempts := r.attempts + 1, hedges := r.hedges + 1, hedgeAttempt := true }).emit "hp.onHedge" pos) = r0
+    generalize (if (k == 0) = true then { r with hedgeAttempt := false, hpLast := r.last } else ({ r with attempts := r.attempts + 1, hedges := r.hedges + 1, hedgeAttempt := true, last := r.hpLast }).emit "hp.onHedge" pos) = r0
     rcases eqv_cases (h r0) with ⟨ha, hb'⟩ | ⟨p, q, r1, ha, hb', h1, h2, h3⟩
     · simp only [ha, hb']
       repeat' split
@@ -444,7 +452,12 @@ theorem applyPolicy_congr (fuel pos : Nat) (p : Policy) (inner inner' : Layer) (
   | fallback k hd => exact fallback_congr fuel pos k hd inner inner' h
   | cache id key cif => exact cache_congr fuel pos id key cif inner inner' h
   | timeout => exact timeout_congr fuel pos inner inner' h
-  | hedge n co => exact hedge_congr pos n co inner inner' h _ _ _ _
+  | hedge n co =>
+    intro r
+    simp only [applyPolicy]
+    rcases eqv_cases (hedge_congr pos n co inner inner' h (n + 2) 0 0 0 r) with ⟨ha, hb'⟩ | ⟨p, q, r1, ha, hb', h1, h2, h3⟩
+    · simp [ha, hb', Eqv]
+    · simp [ha, hb', Eqv, h1, h2, h3]
 
 /-- the composition loop over an arbitrary innermost layer -/
 def stackOver (fn : Layer) (fuel : Nat) : Nat → List Policy → Layer
